@@ -12,7 +12,8 @@ From J2O Require Import PyLib Tensor Graph Redirect ReshapePairPass TransposePai
 From J2OGen Require Import GenCast GenOpt.
 Import ListNotations.
 
-Record rgraphT := mkRT { rt_nodes : list node; rt_outputs : list name; rt_const : name -> option (list Z) }.
+(* [rt_next]: every name the graph or its environment uses is below it (the real pass picks a name nothing else carries) *)
+Record rgraphT := mkRT { rt_nodes : list node; rt_outputs : list name; rt_const : name -> option (list Z); rt_next : name }.
 Definition rt_graph (g : rgraphT) : graph := mkGraph (rt_nodes g) (rt_outputs g).
 
 Definition enc_z (z : Z) : nat := if (z <? 0)%Z then 2 * Z.to_nat (- z) - 1 else 2 * Z.to_nat z.
@@ -98,9 +99,10 @@ Definition decide_tr (g : rgraphT) (T2 : node) : option raction :=
   end.
 
 Definition max_name (g : rgraphT) : nat :=
-  fold_right Nat.max 0 (rt_outputs g ++ flat_map (fun n => n_ins n ++ n_caps n ++ n_outs n) (rt_nodes g)).
+  fold_right Nat.max 0 (pred (rt_next g) :: rt_outputs g ++ flat_map (fun n => n_ins n ++ n_caps n ++ n_outs n) (rt_nodes g)).
 
-Definition apply_tr (g : rgraphT) (a : raction) : rgraphT :=
+(* the rewrite WITHOUT the node that defines the re-mapped axes (they are looked up under the created name) *)
+Definition apply_tr_env (g : rgraphT) (a : raction) : rgraphT :=
   match first_in (ra_T1 a), out1 (ra_red a), out1 (ra_T2 a) with
   | Some src, Some ro, Some t2o =>
       let fresh := S (max_name g) in
@@ -119,8 +121,23 @@ Definition apply_tr (g : rgraphT) (a : raction) : rgraphT :=
             | AxInput l => fun x => if Nat.eqb x fresh then Some (map Z.of_nat l) else rt_const g x
             | _ => rt_const g
             end)
+           (match ra_axes a with AxInput _ => S fresh | _ => rt_next g end)
   | _, _, _ => g
   end.
+
+(* THE REWRITE: when the axes were an input, a Constant node holding the re-mapped axes (payload encoded as 5 :: 2k ...) is
+   inserted immediately before the reducer (an initializer would not survive in a function body) *)
+Definition const_node (l : list nat) (x : name) : node := mkNode "Constant" (5 :: map (fun k => 2 * k) l) [] [] [x].
+Definition insert_before (y : name) (c : node) (ns : list node) : list node :=
+  flat_map (fun n => if existsb (Nat.eqb y) (n_outs n) then [c; n] else [n]) ns.
+Definition apply_tr (g : rgraphT) (a : raction) : rgraphT :=
+  match first_in (ra_T1 a), out1 (ra_red a), out1 (ra_T2 a), ra_axes a with
+  | Some _, Some ro, Some _, AxInput l =>
+      let gx := apply_tr_env g a in
+      mkRT (insert_before ro (const_node l (S (max_name g))) (rt_nodes gx)) (rt_outputs gx) (rt_const gx) (rt_next gx)
+  | _, _, _, _ => apply_tr_env g a
+  end.
+
 
 Definition tr_step (g : rgraphT) : option rgraphT := option_map (apply_tr g) (first_some (decide_tr g) (rt_nodes g)).
 Fixpoint tr_pass (fuel : nat) (g : rgraphT) : rgraphT :=
